@@ -393,13 +393,19 @@ func VH_C15_internal(kind, variant int) {
 	case 2:
 		_, err = a.loc.AddRule(a.ctx, "r1", vhPlainRule())
 		vassert(err == nil, "addrule-succeeds")
+	case 4:
+		// the context that registered location A's rule goes on to work on location B (a
+		// request that touches two locations, say a child and the parent it loads): the tick
+		// still belongs to the location the rule is in
+		_, err = b.loc.AddFact(a.ctx, "other", core.Map{"k": "v"})
+		vassert(err == nil, "addfact-succeeds")
 	case 3:
 		// the tick's work partly fails: the one-shot rule cannot be retired from a
 		// location that has become read-only; its action still ran once, not more
 		a.loc.SetReadOnly(a.ctx, true)
 	}
 	vquiesce()
-	if variant == 0 || variant == 3 {
+	if variant == 0 || variant == 3 || variant == 4 {
 		vassert(len(a.rec.ran) == 1, "each-location-runs-its-own-scheduled-rule")
 	} else {
 		vassert(len(a.rec.ran) == 0, "removed-rule-no-longer-runs")
